@@ -17,7 +17,7 @@ func init() {
 			"R2 every loop reachable from Parse either consumes a token / a rune on every cycle or has a ranking function whose decrease is proved; " +
 			"R3 import expansion is bounded: the splice of imported tokens is preceded by a cycle check that compares the sources being imported with the sources of every enclosing import, the enclosing frames are updated in place, and the new frame is recorded; " +
 			"R4 environment replacement strictly shrinks the unsearched suffix on every iteration; " +
-			"R5 every consumed rune that can be a line break passes the line counter; R6 the cursor protocol: Next() (decision table over token lists 0-3 and every cursor) advances and returns true exactly when a further token exists, constructors start at -1, the cursor moves back only right after a successful advance. Since round 4: R7 replaceEnvVars as a table (several references, unset, unterminated, empty, self-referring values). Since round 5: R8 inline = snippet = imported file, as a table of parseAll on 44 token-list configurations (snippets first/middle/last/only, nested, beginning with an import, inside a sub-block, on the brace line; files of directives, of whole blocks, of addresses): same keys and per-directive argument texts. Since round 6: R8 with expected results for repeated directives, multi-line tokens and environment values (one known finding: a value holding a line break); R9 the lexer rune by rune (blanks, tabs, CRLF, BOM, comments, quotes, escapes). Since round 7: R9 the empty text (an empty imported file) has no tokens and is no error. Since round 8: R10 the parser package writes no package-level state outside its initialisers (a reload parses from scratch).",
+			"R5 every consumed rune that can be a line break passes the line counter; R6 the cursor protocol: Next() (decision table over token lists 0-3 and every cursor) advances and returns true exactly when a further token exists, constructors start at -1, the cursor moves back only right after a successful advance. Since round 4: R7 replaceEnvVars as a table (several references, unset, unterminated, empty, self-referring values). Since round 5: R8 inline = snippet = imported file, as a table of parseAll on 44 token-list configurations (snippets first/middle/last/only, nested, beginning with an import, inside a sub-block, on the brace line; files of directives, of whole blocks, of addresses): same keys and per-directive argument texts. Since round 6: R8 with expected results for repeated directives, multi-line tokens and environment values (one known finding: a value holding a line break); R9 the lexer rune by rune (blanks, tabs, CRLF, BOM, comments, quotes, escapes). Since round 7: R9 the empty text (an empty imported file) has no tokens and is no error. Since round 8: R10 the parser package writes no package-level state outside its initialisers (a reload parses from scratch). R4 environment expansion also as a table of replaceEnvVars (values containing references, also their own).",
 		notDecided: "print-then-parse round trip for generated structure and layouts (the R8 table is a finite set of configurations at token level, below the lexer); quoting and escapes.",
 	})
 }
